@@ -611,19 +611,21 @@ def qtree_equal(a, b, scale):
 
 
 def qtree_tie(gc, real_dump, scale):
-    """is some element centre within rounding distance of a split line / boundary of its node without the float
-    and the exact computation being identical?  (then the float tree and the exact tree may legitimately differ)"""
+    """may the float tree and the exact tree legitimately differ?  Yes when some halving 0.5*(a+b) of the float tree was
+    rounded (so the model's split lines differ from the float ones by rounding errors) and some element centre lies
+    within rounding distance (`scale`, absolute) of a split line or boundary of its node."""
     tol = Fr(scale)
+    rounded = any(F(0.5 * (float(a[ax]) + float(b[ax]))) != (a[ax] + b[ax]) / 2 for _, (a, b), elts in real_dump if len(elts) > 1 for ax in (0, 1))
+    if not rounded:
+        return False
     for gen, (a, b), elts in real_dump:
         if len(elts) > 1:
             for ax in (0, 1):
-                mid_exact = (a[ax] + b[ax]) / 2
-                mid_float = F(0.5 * (float(a[ax]) + float(b[ax])))
+                mid = (a[ax] + b[ax]) / 2
                 for e in elts:
                     c = FP(gc.cols[e].centre)[ax]
-                    for line in (mid_exact, a[ax], b[ax]):
-                        if abs(c - line) <= tol and (c != line or mid_float != mid_exact):
-                            return True
+                    if any(abs(c - line) <= tol for line in (mid, a[ax], b[ax])):
+                        return True
     return False
 
 
